@@ -5,10 +5,12 @@ package sim
 import (
 	"encoding/json"
 	"fmt"
+	"sync"
 	"time"
 
 	"github.com/siglens/siglens/pkg/config"
 	eswriter "github.com/siglens/siglens/pkg/es/writer"
+	"github.com/siglens/siglens/pkg/segment/query"
 	"github.com/siglens/siglens/pkg/segment/writer"
 	vsync "github.com/siglens/siglens/pkg/zzvsync"
 )
@@ -22,19 +24,28 @@ type SchedStep struct {
 	Index string     `json:"index,omitempty"`
 	Event string     `json:"event,omitempty"`
 	Query *QueryArgs `json:"query,omitempty"`
+	Ms    int        `json:"ms,omitempty"`
 }
 
 type SchedArgs struct {
 	X       []SchedStep `json:"x"`
 	Y       []SchedStep `json:"y"`
 	PauseAt int64       `json:"pauseAt"`
+	Pre     []SchedStep `json:"pre,omitempty"`  // before the schedule, no controller attached
+	Post    []SchedStep `json:"post,omitempty"` // after both parties have finished
 }
 
 type stepRes struct {
-	Op    string    `json:"op"`
-	Query *QueryRes `json:"query,omitempty"`
-	Err   string    `json:"err,omitempty"`
+	Op      string    `json:"op"`
+	Query   *QueryRes `json:"query,omitempty"`
+	Err     string    `json:"err,omitempty"`
+	Running []uint64  `json:"running,omitempty"`
+	Waiting []uint64  `json:"waiting,omitempty"`
+	Ms      int64     `json:"ms,omitempty"` // wall time of the step
 }
+
+// queries started by a "bgquery" step; "bgwait" collects them
+var bgQueries []chan *QueryRes
 
 func runSteps(steps []SchedStep) []stepRes {
 	var out []stepRes
@@ -58,7 +69,48 @@ func runSteps(steps []SchedStep) []stepRes {
 			doFlush()
 			config.SetMaxSegFileSize(old)
 		case "query":
+			t0 := time.Now()
 			r.Query = RunQuery(st.Query)
+			r.Ms = time.Since(t0).Milliseconds()
+		case "bgquery":
+			// a second client: the query runs in its own goroutine, its answer is collected by "bgwait"
+			ch := make(chan *QueryRes, 1)
+			q := st.Query
+			bgQueries = append(bgQueries, ch)
+			go func() { ch <- RunQuery(q) }()
+		case "bgwait":
+			if len(bgQueries) == 0 {
+				r.Err = "no background query"
+				break
+			}
+			ch := bgQueries[0]
+			bgQueries = bgQueries[1:]
+			select {
+			case r.Query = <-ch:
+			case <-time.After(time.Duration(st.Ms) * time.Millisecond):
+				r.Err = "still not answered"
+			}
+		case "cancelall":
+			// what the cancel API does, for every query the tables know
+			run, wait := query.VerifQueryTables()
+			r.Running, r.Waiting = run, wait
+			for _, qid := range append(run, wait...) {
+				query.CancelQuery(qid)
+			}
+		case "cancelwaiting":
+			run, wait := query.VerifQueryTables()
+			r.Running, r.Waiting = run, wait
+			for _, qid := range wait {
+				query.CancelQuery(qid)
+			}
+		case "tables":
+			r.Running, r.Waiting = query.VerifQueryTables()
+		case "sleep":
+			time.Sleep(time.Duration(st.Ms) * time.Millisecond)
+		case "maxrunning":
+			query.VerifSetMaxRunning(uint64(st.Ms))
+		case "timeoutsecs":
+			config.SetQueryTimeoutSecs(st.Ms)
 		}
 		out = append(out, r)
 	}
@@ -71,6 +123,7 @@ func schedRun(raw json.RawMessage) (interface{}, error) {
 		return nil, err
 	}
 	var xres, yres []stepRes
+	preres := runSteps(a.Pre)
 	xdone := make(chan struct{})
 	started := make(chan *vsync.Controller, 1)
 	go func() {
@@ -81,6 +134,11 @@ func schedRun(raw json.RawMessage) (interface{}, error) {
 		close(xdone)
 	}()
 	c := <-started
+	var resumeOnce sync.Once
+	resume := func() { resumeOnce.Do(func() { close(c.Resume) }) }
+	// whatever happens, nothing stays parked at the pause point after this schedule (a goroutine of the tree may reach
+	// the k-th lock operation only after the party itself has returned)
+	defer resume()
 	out := map[string]interface{}{}
 	paused := false
 	select {
@@ -97,17 +155,17 @@ func schedRun(raw json.RawMessage) (interface{}, error) {
 		}()
 		select {
 		case <-ydone:
-			close(c.Resume)
+			resume()
 			<-xdone
 		case <-c.YBlocked:
 			// Y needs a lock the held goroutine owns: in this schedule Y waits, X goes on
 			yBlocked = true
-			close(c.Resume)
+			resume()
 			<-xdone
 			<-ydone
 		case <-time.After(20 * time.Second):
 			yStalled = true // safety net, reported as such (never a verdict)
-			close(c.Resume)
+			resume()
 			<-xdone
 			<-ydone
 		}
@@ -116,6 +174,8 @@ func schedRun(raw json.RawMessage) (interface{}, error) {
 		yres = runSteps(a.Y)
 	}
 	vsync.Detach()
+	out["pre"] = preres
+	out["post"] = runSteps(a.Post)
 	out["points"] = c.Count()
 	out["paused"] = paused
 	out["pausedAt"] = c.PausedL
